@@ -307,7 +307,7 @@ Definition step (s : sys) (o : op) : result :=
       end
   | Flush id =>
       let d := rotate (s_db s) in
-      if existsb (N.eqb id) (all_ids (l_levels (s_db s))) then Bad 142
+      if negb (id =? 0) && existsb (N.eqb id) (all_ids (l_levels (s_db s))) then Bad 142
       else Ok (set_db s (flush_oldest d id))
   | Compact c out =>
       let ls := l_levels (s_db s) in
